@@ -42,8 +42,10 @@ with open(ROOT + '/seeded/README.md', 'w') as f:
             'How the rounds were used: the changes of a round that the checks of that time MISSED were handed (as examples of an input class,\n'
             'never to be special-cased) to a strengthening pass that widened generators, observations, direct oracles and, where the model\'s\n'
             'domain was too narrow, the model and its theorems; the next round was written by new sub-agents told to avoid everything the earlier\n'
-            'rounds had done.  Misses per round before strengthening: round 1: 9 of 54, round 2: 9 of 57, round 3: 13 of 57 (each later round aims at\n'
-            'rarer inputs and less obvious clauses).  The one change still listed as missed by its own property\'s check (C02-r2-2, a header\n'
+            'rounds had done.  Misses per round before strengthening: round 1: 9 of 54, round 2: 9 of 57, round 3: 13 of 57, round 4: 6 of 57, round 5: 7 of 57,\n'
+            'round 6: 10 of 38 (each later round aims at rarer inputs and less obvious clauses; round 6 was told what all earlier rounds had done).\n'
+            'Round-6 changes filed under C08/C10/C11/C12 that are crash-point or thread-interleaving defects of the mmap store / value classes are\n'
+            'caught by C11 / C02 / C08, whose properties they violate, and stay listed as not caught by the property they were filed under.  The one change still listed as missed by its own property\'s check (C02-r2-2, a header\n'
             'published before the entry bytes) is a crash-point/reader-interleaving defect of the mmap store and is caught by C11, whose property it violates.\n\n'
             '| Change | What it does | Needs | Caught by | Not caught by |\n|---|---|---|---|---|\n')
     for r in rows:
